@@ -54,7 +54,12 @@ func fillCode(r *rand.Rand, g *ast.Grammar, cfg Cfg) {
 }
 
 func initExtras(r *rand.Rand) string {
-	switch r.Intn(4) {
+	switch r.Intn(6) {
+	case 4, 5:
+		// percent signs in every role (operator, rune, string, format verbs, an escaped percent): the text of the block is
+		// data for the generator, never a format (round 20, C04: the init block written through Fprintf as the FORMAT);
+		// the init of the package checks what the helper returns
+		return "\nfunc pvPercent(n int) string {\n\tif n%2 == 0 && '%' == 37 {\n\t\treturn strconv.Itoa(n) + \"%\" + \"%d %s %v %%\"[0:2]\n\t}\n\treturn \"%!\"\n}\n\nfunc init() {\n\tif got := pvPercent(42); got != \"42%%d\" {\n\t\tpanic(\"init block garbled: \" + got)\n\t}\n}\n"
 	case 0:
 		return "\n// init block helper with braces { in a comment\nfunc pvInitHelper(s string) string {\n\tif s == \"}\" {\n\t\treturn `{`\n\t}\n\treturn s\n}\n\nvar _ = pvInitHelper\n"
 	case 1:
